@@ -302,3 +302,41 @@ pub fn leaves_winner(tree: &BTreeMap<String, Option<String>>) -> (BTreeSet<Strin
     let w = leaves.iter().max_by(|a, b| rev_cmp(a, b)).cloned();
     (leaves, w)
 }
+
+/// A name-independent key for a stored item: item names differ from run to run (hash-map order feeds
+/// the bytes of packs and blocks) but what an item *says* does not.  Blocks: index, metadata, sorted
+/// change records and the keys of their parents; packs: the sorted digests of their objects.
+pub fn canonical_item_keys(files: &Files) -> BTreeMap<String, String> {
+    let mut out: BTreeMap<String, String> = BTreeMap::new();
+    let mut blocks: BTreeMap<String, RefBlock> = BTreeMap::new();
+    for (k, v) in files {
+        if let Some(stem) = k.strip_suffix(".pack") {
+            let mut ds = parse_pack(stem, v).unwrap_or_default();
+            ds.sort();
+            out.insert(k.clone(), format!("P{}", sha(ds.join(",").as_bytes())));
+        } else if let Some(stem) = k.strip_suffix(".delta") {
+            if let Some(b) = parse_block(stem, v) {
+                blocks.insert(stem.to_string(), b);
+            } else {
+                out.insert(k.clone(), format!("X{}", sha(v)));
+            }
+        } else {
+            out.insert(k.clone(), format!("O{}", sha(v)));
+        }
+    }
+    // blocks in index order so that parents are keyed first
+    let mut order: Vec<&String> = blocks.keys().collect();
+    order.sort_by_key(|s| blocks[*s].idx);
+    let mut bkeys: BTreeMap<String, String> = BTreeMap::new();
+    for stem in order {
+        let b = &blocks[stem];
+        let mut ch: Vec<String> = b.changes.iter().map(|(u, r, p)| format!("{}|{}|{:?}", u, r, p)).collect();
+        ch.sort();
+        let mut ps: Vec<String> = b.parents.iter().map(|p| bkeys.get(p).cloned().unwrap_or_else(|| "?".into())).collect();
+        ps.sort();
+        let key = format!("B{:08}{}", b.idx, sha(format!("{:?}|{:?}|{:?}", ch, b.info.as_ref().map(|i| i.to_string()), ps).as_bytes()));
+        bkeys.insert(stem.clone(), key.clone());
+        out.insert(format!("{}.delta", stem), key);
+    }
+    out
+}
